@@ -56,7 +56,9 @@ def rules(t):
             sst, sen = stable(rg[3][0]), stable(rg[3][1])
             cursor = sst.startswith("phi#") and "Ord::min" in sen and f"({sst} AddWithOverflow {S})" in sen and "Bytes::len" in sen
             if not indexed and not cursor: r.bad(f"{name}|start", c, f"slice start is {start[:60]}, expected k*SLICE_SIZE")
-            if not cursor and not ("phi(" in end and "Bytes::len" in end and f"MulWithOverflow {S}" in end and "AddWithOverflow 1" in end): r.bad(f"{name}|end", c, f"slice end is {end[:80]}, expected (last ? len : (k+1)*SLICE_SIZE)")
+            # `min(len, (k+1)*S)` / `min(k*S + S, len)`: the same end without the `is last slice` conditional (num_slices = ceil(len / S))
+            via_min = re.search(r"(Ord|cmp)::min\(", end) is not None and "Bytes::len" in end and ((f"MulWithOverflow {S}" in end and "AddWithOverflow 1" in end) or f"({start} AddWithOverflow {S})" in end)
+            if not cursor and not via_min and not ("phi(" in end and "Bytes::len" in end and f"MulWithOverflow {S}" in end and "AddWithOverflow 1" in end): r.bad(f"{name}|end", c, f"slice end is {end[:80]}, expected (last ? len : (k+1)*SLICE_SIZE)")
         for s in t.aggrs("renet::packet::Slice", None, f):
             n = fmt(t.field_of_aggr(s, "num_slices"))
             if "div_ceil" not in n and "num_slices" not in n: r.bad(f"{name}|num_slices", s, f"num_slices is {n[:50]}, not ceil(len / SLICE_SIZE)")
